@@ -67,6 +67,12 @@ impl Command for AppendCommand {
     ) -> Result<PipelineData, ShellError> {
         let span = call.head;
 
+        // in runs that ask for it, a script's `.append` is a step boundary of its thread
+        #[cfg(xs_verif)]
+        if crate::verif::knob("nu.append.point", 0) == 1 {
+            crate::verif::point("nu.append", 0);
+        }
+
         let store = self.store.clone();
 
         let topic: String = call.req(engine_state, stack, 0)?;
